@@ -26,6 +26,11 @@ impl<T: Send + Sync> Drop for ConIterOfVec<T> {
         if current <= self.vec_len {
             let _remaining_vec_to_be_dropped = unsafe { self.split_off_right(current) };
         }
+
+        // every element is either moved out or dropped above:
+        // release the allocation of the vector without touching the elements again
+        let mut vec = unsafe { ManuallyDrop::take(self.vec.get_mut()) };
+        unsafe { vec.set_len(0) };
     }
 }
 
